@@ -7,6 +7,10 @@ os.environ.setdefault("PYVC_TMP", "/tmp")
 from pyvc import driver, solve
 reg = driver.load_contracts()
 key = sys.argv[1]
+from pyvc import vals
+if reg.contracts[key].view == "string" and not vals.STRING_MODE:
+    os.environ["PYVC_NODE"] = "str"
+    os.execv(sys.executable, [sys.executable] + sys.argv)
 flt = sys.argv[2] if len(sys.argv) > 2 and not sys.argv[2].startswith("--") else None
 t0 = time.time()
 obls, info = driver.generate(reg, key)
